@@ -4,15 +4,18 @@ pub mod explore;
 pub mod problems;
 pub mod report;
 pub mod run;
+pub mod tableau;
 pub mod twopass;
 pub mod util;
 
 pub mod regress;
 
+pub mod c02;
 pub mod c03;
 pub mod c04;
 pub mod c05;
 pub mod c06;
+pub mod c07;
 pub mod c11;
 pub mod c12;
 pub mod c16;
